@@ -1,7 +1,9 @@
 import EinoV.Basic.JsonUtil
 import EinoV.Model.C03
 import EinoV.Model.C03Loop
+import EinoV.Model.C03Fail
 import EinoV.Expected.C03
+import EinoV.Oracle.C03Branch
 
 /-
   Oracle for C03.  Two case kinds:
@@ -34,6 +36,15 @@ import EinoV.Expected.C03
   {"kind":"prefail","needAll":b,"n":k,"fail":i}   `submitP` (Expected facts) of the tasks
       1..k on the initial task manager where the pre-processor of task i fails: does `submit`
       return an error, which executions have been started, `num`.
+
+  {"kind":"failstep",…same graph…,"bad":[keys],"priority":[keys]}   the batch engine with
+      failing node bodies (`fRun`, `Model/C03Fail.lean`, with the expected value `true` of the
+      fact `waitAllLoops`): does the run fail, which node's error is reported, the supersteps in
+      completion order, what has been started / received when the run returns, the result.
+
+  {"kind":"brjoin","w":workflow,"input":s,"orders":[[keys]]}   Workflows with branches under
+      several completion priorities, evaluated on the shared engine model (`runEager`): see
+      `Oracle/C03Branch.lean`.
 -/
 namespace EinoV.Oracle.C03
 open Lean EinoV EinoV.C03
@@ -280,8 +291,25 @@ def handlePrefail (c : Json) : JE Json := do
     pure <| Json.mkObj [("err", Json.bool err), ("started", J.mkNats s.running), ("num", (s.num : Json)),
       ("coll", Json.str (match s.coll with | .idle => "idle" | .window => "window" | .inline _ => "inline"))]
 
+def handleFailstep (c : Json) : JE Json := do
+  let nodes ← (← J.arr c "nodes").mapM parseNode
+  let g : GCase := { nodes := nodes, endPreds := (← J.strList c "endPreds"), input := (← J.str c "input") }
+  let cfg : FCfg := { g := g, bad := (← J.strList c "bad"), order := (← J.strList c "priority") }
+  -- `waitAllLoops = true`: the value `facts_match` (Props/C03.lean) ties to the source
+  let r := fRun cfg true
+  pure <| Json.mkObj [
+    ("failed", Json.bool r.failed),
+    ("reported", Json.str (r.reported.getD "")),
+    ("steps", J.mkArr (r.steps.map J.mkStrs)),
+    ("started", J.mkStrs r.started),
+    ("collected", J.mkStrs r.collected),
+    ("uncollected", J.mkStrs (fUncollected r)),
+    ("result", J.mkArr (r.result.map fun p => J.mkStrs [p.1, p.2]))]
+
 def handle (c : Json) : JE Json := do
   match (← J.str c "kind") with
+  | "failstep" => handleFailstep c
+  | "brjoin" => C03Branch.handle c
   | "tmtrace" => handleTrace c
   | "run" => handleRun c
   | "eager" => handleEager c
